@@ -95,7 +95,7 @@ def rand_conts(g, n=None, small=False):
 
 
 # ------------------------------------------------------------------ suites
-ENTRIES = ["readfrom", "frombuffer", "fromunsafe", "unmarshal", "base64", "readfromck"]
+ENTRIES = ["readfrom", "frombuffer", "fromunsafe", "unmarshal", "base64", "readfromck", "must", "mustck"]
 
 
 @suite("ser")
@@ -157,6 +157,18 @@ def _ser_scale_episodes(g):
             g.emit("addr %s %d %d" % (x, (k + 3 * (j % 2)) * 65536 + 100, (k + 3 * (j % 2)) * 65536 + 100 + r.choice([300, 5000])))
         g.emit("opt %s" % x)
         big.append(x)
+    for n in (128, 256, 1024, 4096):
+        x = g.fresh("h")
+        g.emit("new %s" % x)
+        g.emit("addstride %s %d 65536 %d" % (x, 65536 * 2 + 9, n))
+        g.emit("addstride %s %d 65536 %d" % (x, 65536 * 2 + 10, n))
+        if n != 256:
+            g.emit("addr %s %d %d" % (x, 65536 * 5 + 100, 65536 * 5 + 900))
+            g.emit("opt %s" % x)
+        g.emit("ser %s" % x)
+        for e in ENTRIES:
+            g.emit("rd %s %s %s" % (g.fresh(), e, x))
+        g.count("ser:chunk-count-multiple-of-128")
     for x in big + [big[0], big[2], big[1]]:
         g.emit("ser %s" % x)
         y = g.fresh()
@@ -268,6 +280,23 @@ def _spec(g, scale):
         g.emit("card %s" % y)
         g.emit("ser %s" % y)          # write direction: the library's bytes for the same bitmap are read by the independent spec reading
         g.count("spec:multiple-of-8")
+    # chunk counts whose offset header (4 bytes per chunk) is a multiple of 512 / 1024 / 4096 bytes, through EVERY entry point (the
+    # stream readers step over the offset header, the slice readers index past it), both cookies
+    for n in (128, 256, 384, 512, 1024):
+        ks = sorted(r.sample(range(65536), n))
+        for rc in (None, True):
+            conts = []
+            for j, k in enumerate(ks):
+                if rc and j % 50 == 7:
+                    conts.append((k, "R", [(100 + j, 130 + j)]))
+                else:
+                    conts.append((k, "A", [(v, v) for v in sorted(r.sample(range(65536), 2))]))
+            stream, dg = enc_stream(conts, run_cookie=rc).hex(), fnv_digest(conts)
+            for e in (ENTRIES if n in (128, 512) else ["readfrom", "unmarshal", "frombuffer"]):
+                y = g.fresh()
+                g.emit("spec %s %s %s %s" % (y, e, stream, dg))
+            g.emit("ser %s" % y)
+            g.count("spec:offset-header-multiple-of-512")
     # conformant streams into receivers that grew chunk by chunk (container counts in the gaps between their slice capacities)
     for n0, cnts in ((45, [65, 71]), (100, [129, 143]), (200, [257, 303])):
         for cnt in cnts:
@@ -383,7 +412,7 @@ def _fuzzdec(g, scale):
             if len(m) > 40000:
                 continue
             y = g.fresh()
-            e = r.choice(["readfrom", "frombuffer", "fromunsafe", "unmarshal", "must", "base64", "readfromck"])
+            e = r.choice(["readfrom", "frombuffer", "fromunsafe", "unmarshal", "must", "base64", "readfromck", "mustck"])
             g.emit("dec %s %s %s" % (y, e, m.hex()))
             # battery on accepted+validated inputs (skipped on both sides otherwise)
             g.emit("card %s" % y)
